@@ -420,7 +420,8 @@ def gen_ties(rng):
     a, b = rng.choice(TIE_PAIRS[:5] if rng.random() < 0.7 else TIE_PAIRS)
     if rng.random() < 0.5:
         a, b = b, a
-    keys = [a, b] + ([rng.choice(c08.KEYS_FREE)] if rng.random() < 0.4 else [])
+    free = [k for k in c08.KEYS_FREE if k.lower().strip("_") not in (a.lower().strip("_"), b.lower().strip("_"))]
+    keys = [a, b] + ([rng.choice(free)] if rng.random() < 0.4 else [])
     rng.shuffle(keys)
     nrows = rng.randint(2, 3)
     params = []
